@@ -412,3 +412,83 @@ def h_builder_numba(case, pick, st, stats):
         if ak.to_json(b2.snapshot()) != steps[-1]["json"]:
             return "compiled: the whole sequence in one call gives %s, command by command %s" % (ak.to_json(b2.snapshot()), steps[-1]["json"])
     return None
+
+
+# ------------------------------------------------------------------ partitioned and virtual arrays inside compiled code (C20 + C18)
+def h_partition_numba(case, pick, st, stats):
+    """one Partition.tla behaviour, every observation made INSIDE Numba-compiled code on the partitioned array (len, x[i], x[a:b],
+    sum over all leaves by iteration) and on a VirtualArray of the same data (alone and as the content of a list node): each equals
+    what the interpreter gives for the whole, eager array"""
+    if not _NB:
+        _adapt()
+    import virtual as vmod
+    ak, np, ext = st["ak"], st["np"], st["ext"]
+    n = case["stops"][-1]
+    k = pick([0, 1, 2])
+    whole = ak.Array(ext._box(l2replay._fix_shape(vmod.PART_EAGERS[k](n))))
+    stops = list(case["stops"])
+    P = ak.partitioned([whole[a:b] for a, b in zip([0] + stops[:-1], stops)])
+    lay = whole.layout
+    gen = ak.layout.ArrayGenerator(lambda: lay, form=lay.form, length=len(lay))
+    V = ak.Array(ak.layout.VirtualArray(gen))
+    subjects = [("partitioned", P), ("virtual", V)]
+    F = _NB
+    sumprog = [F["p_sum1"], F["p_sum2"], F["p_sum1opt"]][k]
+
+    def val(out):
+        if isinstance(out, np.ndarray):
+            return out.tolist()
+        if isinstance(out, (ak.Array, ak.Record)):
+            return ak.to_list(out)
+        return out.item() if hasattr(out, "item") else out
+
+    def norm(o):
+        return json.dumps(o, default=lambda z: z.item() if hasattr(z, "item") else list(z))
+    for i, h in enumerate(case["steps"]):
+        op = h["op"]
+        if op == "repartition":
+            # NOT driven here (DESIGN 6): on the stand-in, partitions that ak.repartition re-assembles (ListArray64 made by a carry)
+            # read wrongly or crash inside compiled code, and whether that is the library or the stand-in's buffer lifetimes is open
+            stats["unspec"] += 1
+            break
+        if op == "at":
+            prog, args, interp = F["p_at"], (h["i"],), (lambda x: x[h["i"]])
+        elif op == "range":
+            if h["s"] != 1:
+                stats["unspec"] += 1
+                continue                      # ranges with a step are not typed inside compiled code
+            prog, args, interp = F["p_range"], (h["a"], h["b"]), (lambda x: x[h["a"]:h["b"]])
+        elif op == "length":
+            prog, args, interp = F["p_len"], (), (lambda x: len(x))
+        else:
+            prog, args, interp = sumprog, (), None
+        try:
+            want = (1, val(interp(whole))) if interp is not None else (1, val(sumprog(whole)))
+        except (ValueError, IndexError):
+            want = (0, None)
+        for name, X in subjects:
+            try:
+                got = (1, val(prog(X, *args)))
+            except (ValueError, IndexError):
+                got = (0, None)
+            except Exception as e:
+                return "step %d (%s) on the %s array inside compiled code: %s: %s" % (i, op, name, type(e).__name__, str(e)[:160])
+            if h.get("exp") == "error" or want[0] == 0:
+                if got[0] == 1:
+                    return "step %d (%s %s) on the %s array inside compiled code: must raise, returned %s" % (i, op, args, name, norm(got[1])[:120])
+                stats["err_expected"] += 1
+                continue
+            if got[0] != 1:
+                return "step %d (%s %s) on the %s array inside compiled code raised; the interpreter answers %s" % (i, op, args, name, norm(want[1])[:120])
+            if norm(got[1]) != norm(want[1]):
+                return ("step %d (%s %s) on the %s array: compiled code sees %s, the interpreter (whole array) %s"
+                        % (i, op, args, name, norm(got[1])[:160], norm(want[1])[:160]))
+    # the array passed through compiled code comes back unchanged
+    for name, X in subjects:
+        try:
+            back = _NB["p_range_open"](X, 0)
+        except Exception as e:
+            return "x[0:] of the %s array inside compiled code: %s: %s" % (name, type(e).__name__, str(e)[:160])
+        if norm(ak.to_list(back)) != norm(ak.to_list(whole)):
+            return "the %s array returned from compiled code reads %s, not %s" % (name, norm(ak.to_list(back))[:160], norm(ak.to_list(whole))[:160])
+    return None
